@@ -21,6 +21,7 @@ fn scenarios(id: &str, args: &Args) -> Option<Vec<explore::Scenario>> {
         "C02" => s_delivery::c02(args),
         "C03" => s_acks::c03(args),
         "C04" => s_acks::c04(args),
+        "C05" => s_delivery::c05(args),
         "C15" => s_qos::c15(args),
         "C16" => s_match::c16(args),
         "C17" => s_match::c17(args),
